@@ -238,6 +238,10 @@ class Exec(object):
             return [(st, ('val', v))]
         tgt = self.static(e, st)
         if tgt is None:
+            from .calls import bind_default_lazily, bind_enclosing_lazily
+            r = bind_default_lazily(self, st, e.id) or bind_enclosing_lazily(self, st, e.id)
+            if r is not None:
+                return [(r[0], ('val', r[1]))]
             raise Unsupported('free name ' + e.id)
         return self.static_value(tgt, st, e)
 
@@ -276,9 +280,9 @@ class Exec(object):
             o = st.alloc('function'); st.note(o, Bound('lib', name=tgt[1])); return [(st, ('val', o))]
         raise Unsupported('static value ' + ast.unparse(e))
 
-    def mk_closure(self, st, node, fid, mod, cls, bound_self=None, name=None, static=False):
+    def mk_closure(self, st, node, fid, mod, cls, bound_self=None, name=None, static=False, defaults=None):
         o = st.alloc('function')
-        st.note(o, Bound('closure', node=node, fid=fid, mod=mod, cls=cls, bound_self=bound_self, name=name or getattr(node, 'name', '<lambda>'), static=static))
+        st.note(o, Bound('closure', node=node, fid=fid, mod=mod, cls=cls, bound_self=bound_self, name=name or getattr(node, 'name', '<lambda>'), static=static, defaults=defaults))
         return o
 
     def hook(self, what, st, *a):
@@ -567,8 +571,19 @@ class Exec(object):
     def e_Tuple(self, e, st):
         return self.e_List(e, st, 'tuple')
 
+    def closure_defaults(self, st, node):
+        """defaults of a nested def / lambda are evaluated NOW, in the defining scope: [(state, [values])] (single outcome required)"""
+        vals = []
+        for d in node.args.defaults:
+            rs = self.ev(d, st)
+            if len(rs) != 1 or rs[0][1][0] != 'val':
+                raise Unsupported('default value expression of a nested function forks or raises')
+            st = rs[0][0]; vals.append(rs[0][1][1])
+        return st, vals
+
     def e_Lambda(self, e, st):
-        return [(st, ('val', self.mk_closure(st, e, st.stack[-1], st.ctx[0], st.ctx[1], name='<lambda>')))]
+        st, dv = self.closure_defaults(st, e)
+        return [(st, ('val', self.mk_closure(st, e, st.stack[-1], st.ctx[0], st.ctx[1], name='<lambda>', defaults=dv)))]
 
     def e_Subscript(self, e, st):
         if isinstance(e.slice, ast.Slice):
@@ -793,7 +808,8 @@ class Exec(object):
         return [(s, ('return', r[1]) if r[0] == 'val' else ('raise', r[1])) for s, r in self.ev(n.value, st)]
 
     def s_FunctionDef(self, n, st):
-        st.setvar(n.name, self.mk_closure(st, n, st.stack[-1], st.ctx[0], st.ctx[1], name=n.name))
+        st, dv = self.closure_defaults(st, n)
+        st.setvar(n.name, self.mk_closure(st, n, st.stack[-1], st.ctx[0], st.ctx[1], name=n.name, defaults=dv))
         return [(st, ('normal',))]
 
     def s_Assert(self, n, st):
